@@ -204,6 +204,11 @@ def _strategies():
             t = toks[i].lstrip("+")
             if frac_of(t) == 0:
                 t = "1.5"
+            if draw(st.booleans()):
+                # a negative distance of any magnitude is negative: down to the smallest positive double
+                k = draw(st.integers(1, 323))
+                t = draw(st.sampled_from([f"1e-{k}", f"{draw(st.integers(1, 9))}.{draw(st.integers(0, 99))}e-{k}", "5e-324",
+                                          "0." + "0" * min(k, 40) + "1"]))
             toks_txt[i] = "-" + t
             case["has_negative"] = True
         body = join(draw, toks_txt)
@@ -279,6 +284,8 @@ def _strategies():
         hi = Fraction(draw(st.integers(0, 3000)), 1000)
         lo = -Fraction(draw(st.integers(1, 3000)), 1000)
         descending = draw(st.booleans())
+        if not descending and draw(st.booleans()):
+            lo = -Fraction(draw(st.integers(1, 9)), 10 ** draw(st.integers(4, 40)))   # starting a hair below zero
         if draw(st.booleans()):
             n = draw(st.integers(2, 12))
             args = [fmt(hi), fmt(lo), str(n)] if descending else [fmt(lo), fmt(hi if hi > 0 else Fraction(1)), str(n)]
@@ -402,7 +409,7 @@ def run(tier):
     rule = ("Hypothesis text generation: non-negative decimals with <=6 significant digits in plain/scientific/'+'/leading-dot "
             "spellings; lists, tuples, bare comma lists (any order, 1..8 distinct members), single numbers, "
             "linspace(a,b[,n]) with a<b and n in 2..60, range/arange/np.arange with 1..3 arguments (start<stop, step>0, "
-            "<=400 points), random whitespace; one list input in ten carries a negative member, and linspace/range forms that run below zero (descending through zero or starting negative) are generated as well: all must be rejected. "
+            "<=400 points), random whitespace; one list input in ten carries a negative member (magnitudes from 3 down to 5e-324), and linspace/range forms that run below zero (descending through zero or starting negative) are generated as well: all must be rejected. "
             "Non-trivial = accepted grid with >=3 radii (>=2 for explicit lists); distinct = distinct input text.")
     return res, rule, {"assumptions": [
         "not generated: negative zero, descending linspace/range, duplicate radii (outside the documented usage)",
